@@ -367,6 +367,54 @@ def replay_row(m, ct, nt, short, accepted):
     return native.record("C17", f"row_{short}", {"carrier": short, "column_type": what, "expected": want, "native": got}, got != want)
 
 
+DE_CARRIERS = {"i8": ["TinyInt"], "i16": ["SmallInt"], "i32": ["Int"], "i64": ["BigInt"], "f32": ["Float"], "f64": ["Double"], "bool": ["Boolean"],
+               "CqlDate": ["Date"], "CqlTime": ["Time"], "CqlTimestamp": ["Timestamp"], "Uuid": ["Uuid"], "CqlTimeuuid": ["Timeuuid"], "CqlDuration": ["Duration"],
+               "value::Counter": ["Counter"], "IpAddr": ["Inet"]}
+
+
+def read_row_vs_any_column(ctx, core, reg, carrier, accepted):
+    """the READ half: <carrier as DeserializeValue>::type_check (macro-generated, one MIR function per carrier, picked by the carrier named in its error constructor)"""
+    short = carrier.split("::")[-1]
+    name = f"c17_read_row_{short}_type_checks_only_against_{'_'.join(a.lower() for a in accepted)}_among_all_column_types"
+    if ctx.skip(name):
+        return
+    ct, nt = reg.get("ColumnType"), reg.get("NativeType")
+    fn = core.find_by_body(r"deserialize/value\.rs[^>]*>::type_check\(_1: &ColumnType", r"mk_typck_err::<(\w+::)*" + re.escape(short) + r", ")
+    typ, kind, nat, pre, _ = symbolic_column_type(reg)
+    m = {r"mk_typck_err::<": sm.m_opaque("typck-error")}
+    it = mir.Interp(core, mir.BVBackend(), m, registry=reg, max_steps=4000)
+    paths = it.run(fn, [Ref(Cell(typ))], pre)
+    fits = z3.And(kind == ct.discr("Native"), z3.Or([nat == nt.discr(a) for a in accepted]))
+    goals, cover = [], []
+    for p in paths:
+        pc = z3.And(p.pc[len(pre):]) if len(p.pc) > len(pre) else z3.BoolVal(True)
+        if p.outcome[0] != "return":
+            goals.append(z3.Not(pc)); continue
+        cover.append(pc)
+        goals.append(z3.Implies(pc, (p.outcome[1].discr.t == 0) == fits))
+    goals.append(z3.Or(cover) if cover else z3.BoolVal(False))
+    ctx.prove(name, pre, z3.And(goals), inputs=[kind, nat],
+              functions=f"<{carrier} as DeserializeValue>::type_check [scylla-cql-core/src/deserialize/value.rs, impl_strict_type!]",
+              bounds=f"carrier {carrier}; the column type is ANY ColumnType variant (collections, vectors, tuples, UDTs included) x ANY native type, both symbolic: type_check passes iff the "
+                     f"column is native {' / '.join(accepted)}; no panic",
+              backend="BV", assumes="mk_typck_err opaque; the promoted `expected` list of the error is whatever the MIR builds (not inspected)", witness=True,
+              outside="deserialize itself (C01 / engine K), carriers with hand-written type checks (strings, blobs, varint, decimal: engine K's matrix over native columns)",
+              replay=lambda m_, short=short, accepted=accepted: replay_read_row(m_, ct, nt, short, accepted))
+
+
+def replay_read_row(m, ct, nt, short, accepted):
+    from . import native
+    k, n = int(m.get("column_type_variant") or 0), int(m.get("native_type") or 0)
+    kname = next((v[0] for v in ct.variants if v[1] == k), "Native")
+    nname = next((v[0] for v in nt.variants if v[1] == n), "Int")
+    what = nname if kname == "Native" else kname
+    want = "PASSES" if what in accepted else "REFUSED"
+    nat = native.Native("core")
+    got = nat.ask(f"readrow {short} {what}")
+    nat.close()
+    return native.record("C17", f"read_row_{short}", {"carrier": short, "column_type": what, "expected": want, "native": got}, got != want)
+
+
 def replay_empty(m, ct, nt):
     from . import native
     k, n = int(m.get("column_type_variant") or 0), int(m.get("native_type") or 0)
@@ -400,6 +448,11 @@ def run(tier, seed, only):
         empty_support(ctx, core, reg)
         maybe_empty_carrier(ctx, core, reg)
         maybe_empty_deserialize(ctx, core, reg)
+        for carrier, accepted in DE_CARRIERS.items():
+            try:
+                read_row_vs_any_column(ctx, core, reg, carrier, accepted)
+            except mir.Unsupported as e:
+                ctx.add(name=f"smt:c17_translate_read_row_{carrier.split('::')[-1]}", engine="smt:mir2smt", status="inconclusive", reason="translator rejected the current source: " + str(e), functions="scylla-cql-core/src/deserialize/value.rs")
         for carrier, accepted in CARRIERS.items():
             try:
                 carrier_vs_any_column(ctx, core, reg, carrier, accepted)
